@@ -6,6 +6,7 @@
 #   ./run.sh replay <file>
 #   ./run.sh selfcheck
 set -u
+if [ "${1:-}" = "replay" ] || [ "${1:-}" = "exec" ]; then set -- "$1" "$(readlink -f "${2:-/nonexistent}")"; fi
 cd "$(dirname "$0")/sim" || exit 2
 export CARGO_NET_OFFLINE=true
 build() {
